@@ -181,7 +181,7 @@ class FlowRule(sym.Rule):
 
 def analyse_tu(eng, cfg):
     if cfg.alloc == 'std':
-        return {'reports': [], 'functions': 0, 'paths': 0}
+        return {'reports': [], 'functions': 0, 'paths': 0, 'soccc_functions': 0}
     orc = eng.oracle
     rule = FlowRule(eng, cfg)
     n = 0
@@ -215,5 +215,6 @@ def analyse_tu(eng, cfg):
         rule.family = fam
         n += 1
         eng.walk(eng.mod.funcs[name], [rule])
+    soccc_fns = sum(1 for fn in orc.effects if 'ALLOC_SOCCC' in orc.effects.get(fn, ()))
     return {'reports': list(rule.reports.values()), 'functions': n, 'paths': rule.paths,
-            'delegated_paths': rule.delegated}
+            'delegated_paths': rule.delegated, 'soccc_functions': soccc_fns}
